@@ -942,7 +942,8 @@ class Run:
             outs.append(call(lambda: m.connectivity.vertex_to_vertices(0)).ok)
         if hasattr(m, "boundary_vertices"):
             outs.append(call(lambda: list(m.boundary_vertices)).ok)
-            outs.append(call(m.is_triangular).ok)
+            if hasattr(m, "is_triangular"):
+                outs.append(call(m.is_triangular).ok)
         if not check:
             return False
         self.rep.flag("event:touch")
